@@ -91,6 +91,10 @@ let shape_bool st e =
 let eqne = function Eq0 | Ne -> true | _ -> false
 (* levels 7, 8: assigned names are bound by var x = <int_shaped> (fragment of compile_program_correct_F7 / F8) *)
 let shape7 st bt e = if st.level >= 7 then (if bt = TBool then shape_bool st e else shape st e) else e
+(* an array element / record field: int_shaped, or (a quarter) an int var in scope, whose cell is then shared *)
+let gen_elem st (env : vi list) (mk : unit -> expr) : expr =
+  let vs = List.filter (fun (v : vi) -> v.t = TInt && v.var && not v.ctr) env in
+  if vs <> [] && Rng.pct st.rng 25 then ev (Rng.pick st.rng vs) else mk ()
 let shape8 st op e = if st.level >= 8 && eqne op then shape st e else e
 let shape_bool8 st e = if st.level >= 8 then shape_bool st e else e
 
@@ -499,7 +503,7 @@ and gen_block st env t d n : item list =
         (if st.level >= 2 then 8 else 0), (fun () -> IExpr (EPrint (gen_int st env d)) :: go env bound (i + 1));
         (if st.level >= 7 then 16 else 0), (fun () ->
             let n = Rng.range st.rng 1 4 in
-            let es = List.init n (fun _ -> shape st (gen_int st env (min d 1))) in
+            let es = List.init n (fun _ -> gen_elem st env (fun () -> shape st (gen_int st env (min d 1)))) in
             let x = fresh st in
             let isvar = Rng.pct st.rng 70 in
             let it = if isvar then IVar (n_of_int x, EArrLit (es, TInt)) else ILet (n_of_int x, EArrLit (es, TInt)) in
@@ -510,7 +514,7 @@ and gen_block st env t d n : item list =
             let isvar = Rng.pct st.rng 70 in
             let isnil = Rng.pct st.rng 8 in
             let e = if isnil then ERecNil (n_of_int r)
-              else ERecNew (n_of_int r, List.init nf (fun _ -> shape st (gen_int st env (min d 1)))) in
+              else ERecNew (n_of_int r, List.init nf (fun _ -> gen_elem st env (fun () -> shape st (gen_int st env (min d 1))))) in
             let it = if isvar then IVar (n_of_int x, e) else ILet (n_of_int x, e) in
             it :: go ({ n = x; t = TRec (n_of_int r); var = isvar; ctr = false; cost = (if isnil then - nf else nf) } :: env) (x :: bound) (i + 1));
         (if st.level >= 8 && List.exists (fun (v : vi) -> v.var && v.cost > 0) (recs_of env) then 8 else 0), (fun () ->
